@@ -42,7 +42,9 @@ P = {'id': 'C18',
               'yield_loops_are_map',
               'yield_points_return',
               'batch_process_is_concat',
-              'buffered_order'],
+              'buffered_order',
+              'buffered_settle_is_schedule',
+              'stage_process_batch_is_map'],
  'trusted': ['modelled (M+S): src/concurrency/work_stealing.rs WorkStealingQueue::{push_local, pop_local, steal, balance, len} and '
              'WorkStealingExecutor::{submit, find_task, one worker_loop iteration incl. the periodic balance, total_queued, is_idle} with every queue '
              'operation one atomic step, and (ModelExec.v) the same executor with submit() split into its three critical sections for any number of '
@@ -59,7 +61,8 @@ P = {'id': 'C18',
              'YieldPoint::{new, checkpoint, yield_now}, the loops of CooperativeUtils::{run_with_yield, process_vec_yielding}, '
              'YieldingIterator::{for_each, collect} and FiberIoUtils::batch_process (chunks(max(1, batch_size)), one suspension per chunk) as traces of '
              'function calls and suspensions, and the `buffered(max(1, max_concurrent))` window of CooperativeUtils::concurrent_with_yield / '
-             'FiberIoUtils::process_files_parallel as a state machine (start / complete / hand over, head-of-line blocking), then the `?` loop over the results',
+             'FiberIoUtils::process_files_parallel as a state machine (start / complete / hand over, head-of-line blocking), then the `?` loop over the results; '
+             'the stages\' own process_batch (trait default of MapStage / FilterStage / BatchMapStage, BatchMapStage with a batch function)',
              'spec-only cells (direct oracle, no mechanism model): the running executor on current-thread and multi-thread tokio runtimes, one queue under '
              'OS threads, BatchCollector with its background timeout checker on two threads, '
              'AsyncMemoryBlobStore::put_batch/get_batch; panicking stage functions in process_batch / execute_single '
